@@ -494,6 +494,74 @@ func TestVFC18Decoder(t *testing.T) {
 				}
 			}
 		}
+		// fragments that straddle representation boundaries: every header block of the path is one byte string, cut one octet before
+		// and one octet after every boundary between representations, so that a Write completes one representation and ends inside the next
+		for _, huff := range []bool{false, true} {
+			d := NewDecoder(4096, nil)
+			var all []byte
+			var bounds []int
+			var wantFields []map[string]any
+			wantErr := "none"
+			var names []string
+			flush := func() bool { // feed the block collected so far; false = stop (error expected or violation reported)
+				if len(all) == 0 {
+					return true
+				}
+				var cuts []int
+				for _, bd := range bounds[:len(bounds)-1] {
+					for _, c := range []int{bd - 1, bd + 1} {
+						if c > 0 && c < len(all) && (len(cuts) == 0 || c > cuts[len(cuts)-1]) {
+							cuts = append(cuts, c)
+						}
+					}
+				}
+				cutCases++
+				got, derr := vfFeed(d, all, cuts)
+				gotJ, _ := json.Marshal(vfFields(got))
+				wantJ, _ := json.Marshal(wantFields)
+				if wantFields == nil {
+					wantJ = []byte("[]")
+				}
+				if vfErrClass(derr) != wantErr || !vfSameFields(gotJ, wantJ) {
+					res.violate(map[string]any{"check": "C18", "kind": "decoder_result", "segmentation": "straddle", "huffman": huff},
+						fmt.Sprintf("decoder on %v, last block fed in fragments straddling the representation boundaries (cuts %v): emitted %s err %q, specification says %s err %q", names, cuts, gotJ, vfErrClass(derr), wantJ, wantErr),
+						map[string]any{"reps": names, "bytes": fmt.Sprintf("%x", all), "cuts": cuts})
+					return false
+				}
+				all, bounds, wantFields = nil, nil, nil
+				return derr == nil
+			}
+			ok := true
+			for _, e := range path {
+				names = append(names, e.Action+string(vfJoinRaw(e.Args)))
+				if e.Action == "EndBlock" {
+					if ok = flush(); !ok {
+						break
+					}
+					d.Close()
+					continue
+				}
+				var r vfRep
+				json.Unmarshal(e.Args[0], &r)
+				all = append(all, r.bytes(huff)...)
+				bounds = append(bounds, len(all))
+				n := g.Nodes[e.To]
+				var out []map[string]any
+				json.Unmarshal(n["emitted"], &out)
+				wantErr = vfStr2(n["derr"])
+				if wantErr == "none" {
+					wantFields = append(wantFields, out...)
+				} else {
+					break // the block ends in an error: feed it and stop
+				}
+			}
+			if ok {
+				flush()
+			}
+			if len(res.Violations) > 0 {
+				return
+			}
+		}
 		res.Paths++
 		if len(res.Samples) < 4 && len(path) >= 3 && res.Paths%101 == 0 {
 			var names []string
